@@ -671,9 +671,31 @@ func (x *Exec) opRefresh(st *Step) {
 
 // ---- CreatePermission -----------------------------------------------------------------------
 
+// tieWith makes the step act at the very instant the given deadline passes (no margin): the
+// request and the expiry timer meet, either order is legitimate, and a request answered with
+// success must leave an entry that lasts its full timeout from that instant.
+func (x *Exec) tieWith(dl time.Time, what string) {
+	if d := time.Until(dl); d > 0 && d < 2*time.Hour {
+		if x.tieRestore < 0 {
+			x.tieRestore = time.Duration(time.Now().UnixNano()) % time.Second
+		}
+		time.Sleep(d)
+		x.slept = true
+		x.St.inc("tie:" + what)
+		x.w.tracef("tie: acting at the instant the %s expires", what)
+	}
+}
+
 func (x *Exec) opCreatePermission(st *Step) {
 	c := x.client(st.C)
 	ui := x.userIdx(c, st)
+	if st.Rel == "tie" && len(st.P) == 1 && st.Defect == "" {
+		if a := x.m.Allocs[c.Idx]; a != nil {
+			if dl, ok := a.Perms[canonIP(peerAddrOf(st.P[0]).IP)]; ok && a.Deadline.After(dl.Add(time.Second)) {
+				x.tieWith(dl, "permission")
+			}
+		}
+	}
 	m := &ref.Msg{Method: ref.MethodCreatePermission, Class: ref.ClassRequest, TxID: c.nextTx()}
 	for i, p := range st.P {
 		v := xorPeerValue(p, m.TxID)
@@ -787,6 +809,13 @@ func (x *Exec) opChannelBind(st *Step) { //nolint:cyclop
 		pi = st.P[0]
 	}
 	pa := peerAddrOf(pi)
+	if st.Rel == "tie" && st.Defect == "" {
+		if a := x.m.Allocs[c.Idx]; a != nil {
+			if ch, ok := a.Chans[num]; ok && sameUDP(ch.Peer, pa) && a.Deadline.After(ch.Deadline.Add(time.Second)) {
+				x.tieWith(ch.Deadline, "channel binding")
+			}
+		}
+	}
 	m := &ref.Msg{Method: ref.MethodChannelBind, Class: ref.ClassRequest, TxID: c.nextTx()}
 	m.Add(ref.AttrChannelNumber, ref.ChannelNumberAttr(num))
 	m.Add(ref.AttrXORPeerAddress, xorPeerValue(pi, m.TxID))
@@ -1090,6 +1119,35 @@ func (x *Exec) opPeerData(st *Step) {
 		x.St.inc("peerdata-oversize")
 	}
 	_, _ = ps.WriteTo(payload, target)
+	// (the later datagrams are only looked at by the server when the client reads again: what
+	// authorises them must outlive the stall, and nothing else may expire meanwhile)
+	stallEnd := time.Now().Add(time.Duration(st.Stall+1) * time.Second)
+	outlives := a != nil && a.Deadline.After(stallEnd)
+	if outlives {
+		for _, d := range a.Perms {
+			outlives = outlives && d.After(stallEnd)
+		}
+		for _, ch := range a.Chans {
+			outlives = outlives && ch.Deadline.After(stallEnd)
+		}
+	}
+	if tc := x.client(st.C); st.Stall > 0 && tc.Stream && x.w.cfg.StreamWindow > 0 && len(dels) == 1 && !optional && outlives && tc.Idx == a.Client {
+		// the stream client stops reading while further datagrams arrive for it: the server's
+		// write blocks at the window; once the client reads again every datagram must arrive
+		// whole, in order, none altered or merged
+		for i := 1; i < max(st.Burst, 2); i++ {
+			more := synth(st.N, st.Seed+uint64(i)*977, st.Content)
+			d := dels[0]
+			d.payload = more
+			dels = append(dels, d)
+			_, _ = ps.WriteTo(more, target)
+		}
+		x.settle()
+		x.w.tracef("stall %ds with %d datagrams for the stream client; authorisation outlives %v", st.Stall, len(dels), stallEnd.Sub(x.w.t0))
+		time.Sleep(time.Duration(st.Stall)*time.Second + 300*time.Microsecond)
+		x.slept = true
+		x.St.inc("stream-client-stalled")
+	}
 	x.settle()
 	x.checkWire(x.observe(), nil, nil, dels, fmt.Sprintf("peer datagram (%d bytes) %v -> relay %v", len(payload), src, target))
 }
